@@ -103,30 +103,34 @@ Theorem C14_lut_set_then_rotate_selects_left :
 Proof. exact set_then_rotate_selects_left. Qed.
 Print Assumptions C14_lut_set_then_rotate_selects_left.
 
-(* ================= 3. mod_switch_2n ================= *)
-(* first branch (lwe radix b > log2(2N ext) + 1, 2N ext = 2^t): round-to-nearest (ties up) of +-x / 2^(b-t):
-   within half a step, and in [-N ext, N ext] (both ends reachable: -2^(b-1) -> -N ext for Right, +N ext for Left) *)
-Theorem C14_mod_switch_range_and_rounding_partial :
-  forall (t b : Z) (left : bool) (l0 : list Z) (rest : list (list Z)),
-    1 <= t -> t + 1 < b <= 62 -> Forall (in_range b) l0 ->
+(* ================= 3. mod_switch_2n (as repaired by /repo e75ed0e) ================= *)
+(* BOTH branches, every radix 1 <= b <= 62, 2N ext = 2^t: with size = min(ceil((t+1)/b), #limbs) and tot = size*b, the integer A
+   denoted by the first `size` limbs (direction sign on every limb) is rounded to t bits, ties up:
+   res = floor((A + 2^(tot-t-1)) / 2^(tot-t))   [a ciphertext with no more than t bits is zero-extended: res = A * 2^(t-tot)],
+   hence | res / 2^t - A / 2^tot | <= 2^-(t+1): within half a step of the torus value, and |res| <= 2N ext.
+   (radix b > t+1: size = 1, the first branch of the code; otherwise its second branch.) *)
+Theorem C14_mod_switch_range_and_rounding :
+  forall (t b : Z) (left : bool) (ls : list (list Z)) (w : nat),
+    1 <= t <= 61 -> 1 <= b <= 62 -> (0 < length ls)%nat ->
+    Forall (fun l : list Z => length l = w) ls ->
+    Forall (Forall (in_range b)) ls ->
+    Z.min (div_ceil (t + 1) b) (Z.of_nat (length ls)) * b <= 62 ->
     exists res : list Z,
-      mod_switch_2n (2 ^ t) b left (l0 :: rest) = Some res /\ length res = length l0 /\
-      (forall i : nat, (i < length l0)%nat ->
-         let sx := if left then - nthZ l0 i else nthZ l0 i in
-         nthZ res i = (sx + 2 ^ (b - t - 1)) / 2 ^ (b - t) /\
-         Z.abs (nthZ res i * 2 ^ (b - t) - sx) <= 2 ^ (b - t - 1) /\
-         - 2 ^ (t - 1) <= nthZ res i <= 2 ^ (t - 1)).
-Proof. exact mod_switch_first_branch. Qed.
-Print Assumptions C14_mod_switch_range_and_rounding_partial.
-
-(* the rounding rule for every radix (Model/C14Oracle.v: ms_ok) ... *)
-Definition C14_mod_switch_range_and_rounding_full : Prop := mod_switch_rule_full.
-(* ... is false in the second branch (radix <= log2(2N ext) + 1): finding C14 mod_switch_2n.small_radix *)
-Theorem C14_mod_switch_small_radix_refuted :
-  exists (n2 b : Z) (left : bool) (ls : list (list Z)) (res : list Z),
-    normalized_limbs b ls = true /\ mod_switch_2n n2 b left ls = Some res /\ ms_ok n2 b left ls res = false.
-Proof. exact mod_switch_small_radix_refuted. Qed.
-Print Assumptions C14_mod_switch_small_radix_refuted.
+      mod_switch_2n (2 ^ t) b left ls = Some res /\ length res = w /\
+      (forall i : nat, (i < w)%nat ->
+         let A := limbs_int b
+                    (firstn (Z.to_nat (Z.min (div_ceil (t + 1) b) (Z.of_nat (length ls))))
+                       (map (fun l : list Z => if left then - nthZ l i else nthZ l i) ls)) in
+         nthZ res i =
+           (if t <? Z.min (div_ceil (t + 1) b) (Z.of_nat (length ls)) * b
+            then (A + 2 ^ (Z.min (div_ceil (t + 1) b) (Z.of_nat (length ls)) * b - t - 1)) /
+                 2 ^ (Z.min (div_ceil (t + 1) b) (Z.of_nat (length ls)) * b - t)
+            else A * 2 ^ (t - Z.min (div_ceil (t + 1) b) (Z.of_nat (length ls)) * b)) /\
+         Z.abs (nthZ res i * 2 ^ (Z.min (div_ceil (t + 1) b) (Z.of_nat (length ls)) * b) - A * 2 ^ t) <=
+           2 ^ (Z.min (div_ceil (t + 1) b) (Z.of_nat (length ls)) * b - 1) /\
+         Z.abs (nthZ res i) <= 2 ^ t).
+Proof. exact mod_switch_rounds. Qed.
+Print Assumptions C14_mod_switch_range_and_rounding.
 
 (* ================= 4. set_xai_plus_y ================= *)
 Theorem C14_xai_plus_y_poly :
@@ -184,35 +188,39 @@ Theorem C14_chunks_cover :
 Proof. exact (@chunks_concat (Z * Z)). Qed.
 Print Assumptions C14_chunks_cover.
 
-(* extended variant: one selected coefficient turns the ext components into those of Y^a * acc, EXCEPT for the coefficients
-   excluded by ext_guard (ai_lo <> 0 and ai_hi = 0 or ai_hi + 1 = 2N) *)
-Theorem C14_blind_rotation_phase_extended_partial :
+(* extended variant (as repaired by /repo acfeda9): one selected coefficient turns the ext components into those of Y^a * acc
+   (ext_rot: component i = X^(a_hi+1) acc[ext-a_lo+i] for i < a_lo, X^a_hi acc[i-a_lo] otherwise), for EVERY a *)
+Theorem C14_blind_rotation_phase_extended_step :
   forall (n : nat) (a : Z) (acc : list poly),
-    (0 < n)%nat -> (0 < length acc)%nat -> Forall (fun p => length p = n) acc ->
-    ext_guard (Z.of_nat n) (Z.of_nat (length acc)) a ->
+    (0 < n)%nat -> (0 < length acc)%nat -> shaped n acc ->
     map2 padd acc (ext_contrib n a 1 acc) = ext_rot n a acc.
 Proof. exact ext_step_is_rotation. Qed.
-Print Assumptions C14_blind_rotation_phase_extended_partial.
-Definition C14_blind_rotation_phase_extended_full : Prop := ext_step_is_rotation_full.
-(* finding C14 cggi.extended.unit_monomial_skipped *)
-Theorem C14_blind_rotation_phase_extended_refuted :
-  exists (n : nat) (a : Z) (acc : list poly),
-    (0 < n)%nat /\ (0 < length acc)%nat /\ Forall (fun p => length p = n) acc /\
-    map2 padd acc (ext_contrib n a 1 acc) <> ext_rot n a acc.
-Proof. exact ext_step_is_rotation_refuted. Qed.
-Print Assumptions C14_blind_rotation_phase_extended_refuted.
-Theorem C14_blind_rotation_extended_model_refuted :
-  exists (n block : nat) (b : Z) (av sv : list Z) (lutp : list poly),
-    nth 0 (cggi_extended n block b av sv lutp) [] <> nth 0 (ext_rot n (b + dotp (combine av sv)) lutp) [].
-Proof. exact cggi_extended_refuted. Qed.
-Print Assumptions C14_blind_rotation_extended_model_refuted.
-(* the contribution without the two guards (work/proposed_fixes/C14_extended_unit_monomial.diff) has no exception *)
-Theorem C14_blind_rotation_phase_extended_repaired :
+Print Assumptions C14_blind_rotation_phase_extended_step.
+(* ext_rot is multiplication by Y^a in the big ring Z[Y]/(Y^(N ext)+1) (zbig = interleaving of the components) *)
+Theorem C14_ext_rot_is_big_ring_rotation :
   forall (n : nat) (a : Z) (acc : list poly),
-    (0 < n)%nat -> (0 < length acc)%nat -> Forall (fun p => length p = n) acc ->
-    map2 padd acc (ext_contrib_spec n a 1 acc) = ext_rot n a acc.
-Proof. exact ext_step_spec_is_rotation. Qed.
-Print Assumptions C14_blind_rotation_phase_extended_repaired.
+    (0 < n)%nat -> (0 < length acc)%nat -> shaped n acc -> zbig n (ext_rot n a acc) = zrot a (zbig n acc).
+Proof. exact zbig_ext_rot. Qed.
+Print Assumptions C14_ext_rot_is_big_ring_rotation.
+(* the whole loop of execute_block_binary_extended (at most one selected coefficient per block): the accumulator is
+   Y^(b + sum a_i s_i) * table in the big ring ... *)
+Theorem C14_blind_rotation_phase_extended :
+  forall (n block : nat) (b : Z) (av sv : list Z) (lutp : list poly),
+    (0 < n)%nat -> (0 < length lutp)%nat -> shaped n lutp ->
+    Forall at_most_one (chunks block (combine av sv)) ->
+    length (cggi_extended n block b av sv lutp) = length lutp /\
+    zbig n (cggi_extended n block b av sv lutp) = zrot (b + dotp (concat (chunks block (combine av sv)))) (zbig n lutp).
+Proof. exact cggi_extended_rot. Qed.
+Print Assumptions C14_blind_rotation_phase_extended.
+(* ... and the GLWE it returns (component 0) holds the big-ring coefficients u * ext *)
+Theorem C14_blind_rotation_extended_result :
+  forall (n block : nat) (b : Z) (av sv : list Z) (lutp : list poly) (u : nat),
+    (0 < n)%nat -> (0 < length lutp)%nat -> shaped n lutp ->
+    Forall at_most_one (chunks block (combine av sv)) -> (u < n)%nat ->
+    nthZ (nth 0 (cggi_extended n block b av sv lutp) []) u =
+    nthZ (zrot (b + dotp (concat (chunks block (combine av sv)))) (zbig n lutp)) (u * length lutp).
+Proof. exact cggi_extended_result. Qed.
+Print Assumptions C14_blind_rotation_extended_result.
 
 (* ================= examples: the hypotheses are satisfiable, the statements are not vacuous ================= *)
 (* N = 4, ext = 2, radix 4, 8-bit table, 3 message bits (scale 2), f = (1,2,3,-1): step 2, drift 1 *)
@@ -228,7 +236,17 @@ Example C14_ex_select_hyps :
   Forall (fun fi : Z => Z.abs (wmul 64 fi (lut_scale 4 3)) <= 2 ^ 62) [1; 2; 3; -1].
 Proof. repeat split; try (cbn; lia). repeat constructor; vm_compute; discriminate. Qed.
 Example C14_ex_mod_switch :
-  mod_switch_2n 16 6 false [[-32; 31; 2; -2]] = Some [-8; 8; 1; 0] /\ mod_switch_2n 16 6 true [[-32; 31; 2; -2]] = Some [8; -8; 0; 1].
+  mod_switch_2n 16 6 false [[-32; 31; 2; -2]] = Some [-8; 8; 1; 0] /\ mod_switch_2n 16 6 true [[-32; 31; 2; -2]] = Some [8; -8; 0; 1] /\
+  (* second branch, the former witness: radix 5 = log2(16) + 1, torus value -1/4 -> -4 on Z_16, both directions; two limbs of radix 2 *)
+  mod_switch_2n 16 5 false [[-8; 0]] = Some [-4; 0] /\ mod_switch_2n 16 5 true [[-8; 0]] = Some [4; 0] /\
+  mod_switch_2n 16 2 true [[1; -2]; [-1; 1]; [1; 0]] = Some [-3; 7].
+Proof. repeat split; reflexivity. Qed.
+Example C14_ex_mod_switch_hyps :
+  1 <= 4 <= 61 /\ 1 <= 2 <= 62 /\ Forall (Forall (in_range 2)) [[1; -2]; [-1; 1]; [1; 0]] /\
+  Z.min (div_ceil (4 + 1) 2) (Z.of_nat (length [[1; -2]; [-1; 1]; [1; 0]])) * 2 <= 62.
+Proof. repeat split; try (cbn; lia); repeat constructor; cbn; lia. Qed.
+Example C14_ex_extended :
+  cggi_extended 2 1 0 [-1] [1] [[5; 7]; [6; 8]] = [[6; 8]; [7; -5]] /\ zrot (-1) [5; 6; 7; 8] = [6; 7; 8; -5].
 Proof. split; reflexivity. Qed.
 Example C14_ex_xai : fst (set_xai_plus_y 4 5 7 [0; 0; 0; 0]) = [7; -1; 0; 0] /\ snd (set_xai_plus_y 4 5 7 [0; 0; 0; 0]) = [0; 0; 0; 0].
 Proof. split; reflexivity. Qed.
